@@ -69,16 +69,16 @@ def install_random_repair_probe():
                 return orig(self, *a, **kw)
             before = np.random.get_state()
             c.extra["_qr_first"] = None
+            c.extra["_qr_all"] = []
             try:
                 return orig(self, *a, **kw)
             finally:
-                first = c.extra.get("_qr_first")
-                if first is not None:
-                    # rounding residue counted as rank: a diagonal entry above matrix_rank.r_tol (1e-18) but far below any real direction
-                    rank, diag, tol = first
-                    lim = 1e-10 * min(1.0, float(self.delta))
-                    if any(tol <= abs(float(v)) < lim for v in diag):
-                        c.extra["convex_startup_rounding_residue"] = c.extra.get("convex_startup_rounding_residue", 0) + 1
+                allq = c.extra.get("_qr_all") or []
+                # rounding residue counted as rank at ANY rank test of this start-up: a diagonal entry above matrix_rank.r_tol (1e-18)
+                # but far below any real direction (1e-10*delta)
+                lim = 1e-10 * min(1.0, float(self.delta))
+                if any(tol <= abs(float(v)) < lim for (rank, diag, tol) in allq for v in diag):
+                    c.extra["convex_startup_rounding_residue"] = c.extra.get("convex_startup_rounding_residue", 0) + 1
                 after = np.random.get_state()
                 sim = np.random.RandomState()
                 sim.set_state(before)
@@ -96,9 +96,9 @@ def install_random_repair_probe():
     def qr_rank(*a, **kw):
         out = orig_qr(*a, **kw)
         c = engine.CTX
-        if c is not None and "_qr_first" in c.extra and c.extra["_qr_first"] is None:
+        if c is not None and isinstance(c.extra.get("_qr_all"), list) and len(c.extra["_qr_all"]) < 2000:
             try:
-                c.extra["_qr_first"] = (out[0], np.array(out[1], dtype=float).copy(), float(kw.get("tol", a[1] if len(a) > 1 else 1e-18)))
+                c.extra["_qr_all"].append((out[0], np.array(out[1], dtype=float).copy(), float(kw.get("tol", a[1] if len(a) > 1 else 1e-18))))
             except Exception:
                 pass
         return out
@@ -268,6 +268,31 @@ def one(cfg, state_kind, draws, readonly, shared=None):
     return run, mod
 
 
+def deterministic_repair_impossible(cfg, x_start):
+    """Geometry test made in the harness, independent of the code under test: from the (projected) start, can ANY choice of signs
+    give n linearly independent displacements P(x + s_k*delta*e_k) - x ? If not, no deterministic 'try the negative direction'
+    repair can complete and the start-up has to use its random stages (second cause of finding convex-startup-random-repair)."""
+    import itertools
+    from .c09 import harness_dykstra
+    n = len(x_start)
+    lo = gen.arr(cfg.get("lower"), n, -1e20) if cfg.get("lower") is not None else np.full(n, -1e20)
+    hi = gen.arr(cfg.get("upper"), n, 1e20) if cfg.get("upper") is not None else np.full(n, 1e20)
+    P = [gen.make_projection(s_) for s_ in cfg["proj"]] + [lambda w: np.minimum(np.maximum(w, lo), hi)]
+    delta = min(1.0, float(cfg["args"].get("rhobeg") or 0.1 * max(1.0, float(np.max(np.abs(x_start))))))
+    rows = {}
+    for k in range(n):
+        for sgn in (1.0, -1.0):
+            e = np.zeros(n); e[k] = sgn * delta
+            y, _ = harness_dykstra(P, x_start + e, 1000, 1e-14)
+            rows[(k, sgn)] = y - x_start
+    for signs in itertools.product((1.0, -1.0), repeat=n):
+        D = np.array([rows[(k, signs[k])] for k in range(n)])
+        sv = np.linalg.svd(D / delta, compute_uv=False)
+        if sv[-1] > 1e-8:
+            return False
+    return True
+
+
 def signature(run):
     s = run.soln
     seq = [c["x"].tobytes() for c in run.ctx.calls]
@@ -341,7 +366,15 @@ def run_case(case):
         nres = sum(int(r_.ctx.extra.get("convex_startup_rounding_residue", 0)) for r_ in runs)
         # the finding is the random stage entered BECAUSE rounding residue was counted as rank; the same stage entered on exact
         # zeros (which the deterministic repair handles on the unchanged tree) is something else and is reported
-        known = "convex-startup-random-repair" if (cfg.get("proj") and nrep > 0 and nres > 0) else None
+        blocked = False
+        if cfg.get("proj") and nrep > 0 and nres == 0 and cfg["prob"]["n"] <= 5 and runs[0].ctx.calls:
+            try:
+                blocked = deterministic_repair_impossible(cfg, np.array(runs[0].ctx.calls[0]["x"], dtype=float))
+            except Exception:
+                blocked = False
+            if blocked:
+                st["random_repair_because_no_sign_choice_is_independent"] = 1
+        known = "convex-startup-random-repair" if (cfg.get("proj") and nrep > 0 and (nres > 0 or blocked)) else None
         viol.append(V("not-reproducible", "[%s] %s (global RNG states: seed(0) / seed(12345) / advanced)%s" % (
             cfg["_family"], differs, "; the convex start-up ran its random repair stage in %d of the runs" % nrep if nrep else ""),
             known=known, family=cfg["_family"]))
